@@ -18,7 +18,8 @@
 // number of threads that really were inside bodies at the same time.  To make overlap
 // likely every thread lingers inside its first bodies of a loop until it has seen
 // `target` = configured count + 1 bodies inside at once or its bounded patience (a number
-// of spin+yield rounds per thread and loop) is used up; nothing ever waits unboundedly.
+// of short spin rounds, every 8th followed by a yield, per thread and loop) is used up; nothing
+// ever waits unboundedly.
 //
 //   drv_tasking_init --hw
 //   drv_tasking_init --in histories.ndjson --out obs.ndjson [--par P] [--timeout-s T]
@@ -112,7 +113,7 @@ static inline void leafBody(LoopRec &L, int idx)
   }
   while (tb.left > 0 && !L.released.load(std::memory_order_relaxed)) {
     cpuRelax(64);
-    sched_yield();
+    if ((tb.left & 7) == 0) sched_yield();   // mostly spin: on an overloaded machine a yield costs a whole time slice
     --tb.left;
   }
   if (L.work > 0)
